@@ -360,6 +360,10 @@ def check(run):
     r4_copies(run, F)
     r5_hint_codes(run, F)
     r6_visit(run, F)
+    # the mutability pass does not look into constants: it relies on the constness pass rejecting every address-of inside a constant
+    # initialiser, so a node of a constant that skips the constness visit (an early `return self`) can hold a pointer to a constant (C10.R10)
+    from props import c10 as _c10
+    _c10.r10_pass_keeps_node(run, F, modules=("analyzer::constness", "analyzer::mutability"), floor=60)
     # what may silently become a pointer: an argument is wrapped in an Autocoerce exactly when can_coerce_into allows it,
     # and E512/E513 compare against the coerced type -- the coercion relation is part of "requires an explicit &" (shared with C07.R5)
     from props import c07
